@@ -64,6 +64,32 @@ def broken_nonascii_files():
     return out
 
 
+def arity_sources():
+    """well-known constructor names applied to an unusual NUMBER of generic arguments (legal through local aliases such as
+    `type HashMap<V> = std::collections::HashMap<String, V>`), with arguments that themselves contain commas"""
+    ctors = ["Option", "Vec", "HashMap", "BTreeMap", "HashSet", "BTreeSet", "Result", "Channel", "Box", "Arc", "Cow", "Mutex"]
+    args = ["u8", "(u32, u32)", "Result<u32, String>", "HashMap<String, (u8, u8)>", "()", "&'static str", "[u8; 4]", "Vec<(String, Option<u8>)>"]
+    types = []
+    for c in ctors:
+        types.append(c)                                   # no argument list at all
+        for a in args:
+            types.append("%s<%s>" % (c, a))               # one argument
+        for a, b in (("u8", "(u32, u32)"), ("(u32, u32)", "u8"), ("String", "Result<u32, String>"), ("(u8, u8)", "(u8, u8)")):
+            types.append("%s<%s, %s>" % (c, a, b))        # two
+        types.append("%s<u8, (u8, u8), String>" % c)      # three
+        types.append("%s<'static, u8>" % c)               # a lifetime first
+        types.append("std::collections::%s<(u8, u8)>" % c)
+    out = []
+    for bi in range(0, len(types), 25):
+        body = []
+        for j, t in enumerate(types[bi:bi + 25]):
+            k = bi + j
+            body.append("#[derive(Serialize, Deserialize)]\npub struct Ar%d {\n    pub f: %s,\n}\n#[tauri::command]\npub fn ar%d(a: %s, s: Ar%d) -> %s {\n    todo!()\n}\n"
+                        "pub fn are%d(app: tauri::AppHandle, p: %s) {\n    app.emit(\"ar-%d\", p).ok();\n}\n" % (k, t, k, t, k, t, k, t, k))
+        out.append(("arity%d" % bi, rustgen.PRELUDE + "use tauri::Emitter;\n" + "\n".join(body), "constructor arity family %d.." % bi))
+    return out
+
+
 def rust_lit(s):
     return '"' + s.replace("\\", "\\\\").replace('"', '\\"').replace("\n", "\\n").replace("\t", "\\t") + '"'
 
@@ -124,6 +150,7 @@ def run(tier, seed):
     # ---- (a) + (b): grammar-generated and fuzzed sources through the real CLI, both modes
     sources = [("exotic%d" % i, rustgen.PRELUDE + "use validator::Validate;\n" + t + "\n#[tauri::command]\npub fn anchor_%d() {}\n" % i, t[:60]) for i, t in enumerate(EXOTIC_ITEMS)]
     sources.append(("exotic-all", rustgen.PRELUDE + "use validator::Validate;\n" + "\n".join(EXOTIC_ITEMS) + "\n#[tauri::command]\npub fn anchor_all() {}\n", "all exotic items together"))
+    sources += arity_sources()
     sources += fuzz_sources(rnd, 360 if tier == "quick" else 4500)
 
     def work(src):
